@@ -8,7 +8,7 @@
    invariant of every reachable state: [reachable_state_invariants].  [plan_of o st cl] is everything the voting
    computes from the state before the call: distances, best-fit result, remaining pairs, solver answer, decisions. *)
 From Coq Require Import List NArith ZArith QArith Bool Arith.
-From Similari Require Import Model.VisualAttrs Model.VisualTracker Proofs.VisualTrackerProofs.
+From Similari Require Import Model.VisualAttrs Model.VisualTracker Proofs.VisualAttrsProofs Proofs.VisualTrackerProofs.
 Import ListNotations.
 Local Open Scope nat_scope.
 
@@ -37,11 +37,25 @@ Theorem usable_iff :
     can_use o d = true <->
     (o_min_area (to_g o) <= d_area d)%Q /\ (to_q_use o <= d_q d)%Q /\
     (forall p, d_own d = Some p -> (to_own_use o <= p)%Q).
-Proof.
-  intros o d. unfold can_use, feature_can_be_used. rewrite !andb_true_iff, !Qle_bool_iff. split.
-  - intros [[A B] C]. repeat split; auto. intros p E. rewrite E in C. apply Qle_bool_iff, C.
-  - intros (A & B & C). repeat split; auto. destruct (d_own d) as [p|]; [apply Qle_bool_iff, C|]; reflexivity.
-Qed.
+Proof. intros o d. apply feature_can_be_used_iff. Qed.
+
+(* The distance gate and the vote weight are the translated VisualSortMetricType::is_ok / distance_to_weight of the Rust
+   source: Euclidean accepts d <= t with weight d, cosine accepts d >= t with weight 1 - d. *)
+Theorem is_ok_exact :
+  forall (t d : Q), (is_ok (Euclid t) d = true <-> (d <= t)%Q) /\ (is_ok (Cosine t) d = true <-> (t <= d)%Q).
+Proof. exact is_ok_iff. Qed.
+
+Theorem distance_to_weight_exact :
+  forall (t d : Q), (distance_to_weight (Euclid t) d == d)%Q /\ (distance_to_weight (Cosine t) d == 1 - d)%Q.
+Proof. exact distance_to_weight_eq. Qed.
+
+(* The positional pair that reaches the voting: the oracle value, kept under Mahalanobis, and under IoU(thr) kept exactly
+   when value >= thr (the filter of the translated positional_metric). *)
+Theorem positional_gate_exact :
+  forall (o : topts) p w z,
+    pos_gate o p = Some (w, z) <->
+    p = Some (w, z) /\ (to_pos o = Maha \/ exists thr, to_pos o = IoU thr /\ (thr <= w)%Q).
+Proof. exact pos_gate_spec. Qed.
 
 (* A detection has a claim on a track exactly when at least visual_min_votes (and at least one) of the distances that
    passed every gate vote for the pair. *)
